@@ -78,7 +78,7 @@ def worker_task(task):
                 left.append(st.decisions + (list(reversed(st.forced)) if st.forced else []))
         it.pending = []
         return {'status': status, 'paths': it.paths, 'pruned': it.pruned, 'left': left, 'violations': it.violations, 'nviol': it.nviol,
-                'viol_count': dict(it.viol_count), 'samples': samples, 'reached': dict(reached), 'stats': dict(it.stats),
+                'viol_count': dict(it.viol_count), 'incomplete': it.incomplete[:3], 'samples': samples, 'reached': dict(reached), 'stats': dict(it.stats),
                 'sat': it.sol.nsat - q0[0], 'unsat': it.sol.nunsat - q0[1], 'solver_s': it.sol.time - q0[2], 'wall': time.time() - t0,
                 'called': sorted(it.called)}
     except symir.Inconclusive as e:
@@ -105,7 +105,7 @@ class Scheduler:
         res = []
         for j in jobs:
             res.append({'status': 'done', 'paths': 0, 'pruned': 0, 'violations': [], 'nviol': 0, 'viol_count': collections.Counter(), 'samples': [], 'reached': collections.Counter(),
-                        'stats': collections.Counter(), 'sat': 0, 'unsat': 0, 'solver_s': 0.0, 'cpu_s': 0.0, 'called': set(), 'tasks': 0, 'error': None,
+                        'stats': collections.Counter(), 'incomplete': [], 'sat': 0, 'unsat': 0, 'solver_s': 0.0, 'cpu_s': 0.0, 'called': set(), 'tasks': 0, 'error': None,
                         't0': time.time(), 'wall': None})
         queue = collections.deque(); inflight = {}
         for i, j in enumerate(jobs): queue.append((i, [], 2.0))
@@ -132,10 +132,10 @@ class Scheduler:
                 i, ar = inflight.pop(k); r = ar.get(); R = res[i]; R['tasks'] += 1
                 if r['status'] in ('error', 'inconclusive'):
                     R['status'] = r['status']; R['error'] = r['error']; continue
-                R['paths'] += r['paths']; R['pruned'] += r['pruned']; R['nviol'] += r['nviol']
+                R['paths'] += r['paths']; R['pruned'] += r['pruned']; R['nviol'] += r['nviol']; R['incomplete'] += r['incomplete'][:2]
                 for k2, v in r['viol_count'].items(): R['viol_count'][k2] += v
                 for v in r['violations']:
-                    if sum(1 for x in R['violations'] if x['msg'] == v['msg']) < 3: R['violations'].append(v)
+                    if sum(1 for x in R['violations'] if x.get('key') == v.get('key')) < 2 and len(R['violations']) < 12: R['violations'].append(v)
                 R['samples'] += r['samples'][:max(0, jobs[i].get('samples', 8) - len(R['samples']))]
                 R['reached'].update(r['reached']); R['stats'].update(r['stats'])
                 R['sat'] += r['sat']; R['unsat'] += r['unsat']; R['solver_s'] += r['solver_s']; R['cpu_s'] += r['wall']; R['called'].update(r['called'])
@@ -342,6 +342,7 @@ def check(pid, tier, spec, seed=0, replay=None):
         key = (j['tu'], tuple(sorted(j['defs'].items())), bool(j.get('clock')))
         exe = natives.get(key)
         if rep['engine'] == 'B' and r['status'] in ('done', 'timeout'):
+            rep['incomplete'] = r['incomplete'][:3]
             rep.update({'paths': r['paths'], 'pruned': r['pruned'], 'sat': r['sat'], 'unsat': r['unsat'], 'solver_s': round(r['solver_s'], 2), 'cpu_s': round(r['cpu_s'], 2),
                         'wall_s': round(r['wall'], 2), 'insns': r['stats'].get('insn', 0), 'forks': r['stats'].get('forks', 0), 'tasks': r['tasks'],
                         'asserts_symbolic': r['stats'].get('asserts_symbolic', 0), 'asserts_concrete': r['stats'].get('asserts_concrete', 0),
@@ -358,7 +359,7 @@ def check(pid, tier, spec, seed=0, replay=None):
             rep['samples'] = [{'inputs': [v for (_, v, _) in smp['inputs']][:40], 'events': smp['events'][:24], 'decisions': smp['decisions'], 'insns': smp['insns']} for smp in r['samples'][:3]]
             # counterexamples
             for n, v in enumerate(r['violations']):
-                vr = {'msg': v['msg'], 'kind': v['kind'], 'where': demangle(v.get('where', [])), 'count': r['viol_count'].get(v['msg'], 1), 'reproduced': None}
+                vr = {'msg': v['msg'], 'kind': v['kind'], 'where': demangle(v.get('where', [])), 'count': r['viol_count'].get(v.get('key'), 1), 'reproduced': None}
                 cex = os.path.join(outdir, 'cex-%s-%d.json' % (j['name'], n))
                 if v.get('inputs') is None:
                     vr['reproduced'] = False; vr['note'] = 'no model'
@@ -402,6 +403,7 @@ def finish(pid, tier, seed, spec, reports, t_start, fatal=None, build_s=0.0):
     viol = []; known = []; broken = []
     if fatal: broken.append(fatal)
     for rep in reports:
+        if rep.get('incomplete') and not rep['violations'] and not rep['known']: broken.append('%s: exploration incomplete: %s' % (rep['job'], rep['incomplete'][0]))
         if rep['status'] != 'done': broken.append('%s: %s %s' % (rep['job'], rep['status'], rep.get('error') or ''))
         if rep['missing_reach']: broken.append('%s: vacuity: labels never reached: %s' % (rep['job'], rep['missing_reach']))
         if rep['validation_mismatch']: broken.append('%s: engine/native mismatch on %d sampled paths (first: %s)' % (rep['job'], len(rep['validation_mismatch']), json.dumps(rep['validation_mismatch'][0])[:1500]))
